@@ -55,6 +55,8 @@ var datas = map[string][]byte{
 	"a": []byte("AAAA-data-a"),
 	"b": []byte("bbbbbbbbbbbbbbbbbbbbbbbb-data-b"),
 	"L": bytes.Repeat([]byte("0123456789abcdef"), 200),
+	"M": bytes.Repeat([]byte("fedcba9876543210"), 200), // same length as L
+	"c": []byte("CCCC-data-c"),                         // same length as a
 }
 
 var cookies = map[string]uint32{"c1": 0x11111111, "c2": 0x22222222, "c3": 0x33333333}
@@ -372,6 +374,10 @@ func (r *runner) runConc(ex []tr.Ev, batched bool) []tr.Ev {
 			ret["p"] = p
 		}
 		emit(ret)
+	}
+	// "pre": operations executed sequentially (as process 1) before the goroutines start
+	for _, o := range tr.List(ex[0]["pre"]) {
+		doOp(1, o.(map[string]interface{}))
 	}
 	var wg sync.WaitGroup
 	start := make(chan struct{})
